@@ -7,6 +7,8 @@ back to exact rational points and all four clauses of the property are decided i
 arithmetic."""
 from __future__ import annotations
 
+from fractions import Fraction
+
 import numpy as np
 from hypothesis import strategies as st
 
@@ -33,7 +35,13 @@ RULE = (
     "several segments is listed several times in the point array (bit-identical copies, each segment may refer to "
     "its own copy, point order shuffled); for it everything is decided by the exact coordinates of the output "
     "points: (a), (b) duplicates by coordinates, (c) and (d) as above, while index-uniqueness of output points is "
-    "not demanded. Non-trivial = at least one pair of input segments intersects; distinct = hash of spec."
+    "not demanded. Length-scale classes (3 cases in 5 stay plain lattice): `transformed` (2 in 5) maps all points by an "
+    "exact similarity x -> (num/den)*x + off, factors 1/8192, 1/128, 1, 10, 1e3, 1e4, integer offsets, |coordinate| <= "
+    "1e6 * min(1, factor), every coordinate exactly representable, and passes tol = 1e-8 * factor for factor < 1; "
+    "`long-segment` (1 in 5) adds a segment of 1e3..1e5 lattice steps and a short collinear partner overlapping it in "
+    "0..30 steps (overlap / length 1e-5..3e-2 or exactly 0: at either end, inside, or disjoint) to the small segments. "
+    "Output points are identified within 64 eps * max|coordinate| + 1e-9 * factor in these classes. "
+    "Non-trivial = at least one pair of input segments intersects; distinct = hash of spec."
 )
 BUDGET = {"quick": {"cases": 16000, "seconds": 35}, "thorough": {"cases": 600000, "seconds": 1100}}
 TECHNIQUE = "property-based testing (Hypothesis) with an exact rational-arithmetic validity oracle"
@@ -41,8 +49,9 @@ LEVEL_TEXT = ("Exploration: thousands of generated integer segment sets per run 
               "total overlaps, several segments through one point, shared end points, with 0-2 tag rows); the "
               "returned subdivision is reconstructed exactly and the four clauses of the property (non-crossing, "
               "covering, contained in the mapped input segment with its tags, no duplicates) are decided exactly.")
-LEVEL_NOTE = ("Integer coordinates (|x| <= ~16, up to 7 segments), so distinct intersection points are > 1e-6 apart and "
-              "the 1e-8 merge tolerance cannot change the answer. Two input classes: uniquified points (what the callers "
+LEVEL_NOTE = ("Integer coordinates (|x| <= ~16, up to 7 segments) or exact similarity images of them / long segments "
+              "(|x| <= 1e6), so distinct intersection points are > 1e-6 lattice steps apart, a collinear overlap is exactly "
+              "a point or >= 1000 x tol * length, and the 1e-8 tolerances cannot change the answer. Two input classes: uniquified points (what the callers "
               "pass) and coincident, bit-identical copies of shared end points; edges are non-degenerate and no segment "
               "is repeated. Points closer than the tolerance but not identical are not generated. The tag_info output "
               "is not examined.")
@@ -52,6 +61,9 @@ ASSUMPTIONS = [
     "shared end points may be repeated bit-identically in the point array",
     "every edge joins two different coordinates; no segment (as a coordinate pair) is listed twice",
     "every point is used by at least one edge",
+    "tolerance-dependent decisions (single point vs overlapping stretch, merging of computed points) are only asserted "
+    "far from the tolerance: overlaps exactly zero or >= 1e-5 of the longer segment; |coordinate| <= 1e6 so that rounded "
+    "intersection points differ by < 1e-9; for down-scaled configurations tol = 1e-8 * factor is passed",
     "an output point that is neither an input point nor an exact pairwise intersection is reported (the function has "
     "no other source of points)",
 ]
@@ -59,11 +71,13 @@ REQUIRED = {
     "has-crossing": 0.15, "has-T": 0.15, "has-overlap": 0.1, "has-shared-endpoint": 0.15, "multi-through-point": 0.03,
     "no-intersection": 0.01, "tags0": 0.1, "tags1": 0.1, "tags2": 0.1, "dropped-duplicate-edge": 0.005,
     "input-unique-points": 0.4, "input-duplicated-points": 0.2, "has-coincident-input-points": 0.1,
+    "lattice": 0.25, "transformed": 0.2, "scaled-up": 0.08, "scaled-down": 0.03, "far-offset": 0.1, "long-segment": 0.1,
+    "long-segment-short-overlap": 0.04,
 }
 
 
 # ----------------------------------------------------------------------------- strategy
-def build(nseg, ntags, n, dup=False):
+def build(nseg, ntags, n, dup=False, extra=None):
     D = Digits(n)
     R = D.choice([2, 3, 4])
     a = D.vec(2, R)
@@ -74,6 +88,9 @@ def build(nseg, ntags, n, dup=False):
         ref = D.choice(segs)
         c, d = lt.segment_relative(D, ref[0], ref[1], D.choice(classes), R)
         segs.append((c, d))
+    for sg in extra or []:  # no digits are read here, so the classes without extra segments are generated as before
+        if sg not in segs and (sg[1], sg[0]) not in segs:
+            segs.append(sg)
     # merge coincident points exactly, shuffle indices
     coords = sorted({tuple(p) for s in segs for p in s})
     perm = D.perm(len(coords))
@@ -117,10 +134,75 @@ def build(nseg, ntags, n, dup=False):
     return spec
 
 
+# Exact similarity transforms x -> (num/den) * x + off (integer factor or negative power of two, integer offset): every
+# coordinate stays exactly representable, all degeneracies stay exact.  split_intersecting_segments_2d merges points with
+# an ABSOLUTE tolerance (default 1e-8): it is passed as 1e-8 * scale for scale < 1, and coordinates are kept <= 1e6 * scale'
+# (scale' = min(1, scale)) so that the rounding of a computed intersection point (~1e-15 * |coordinate|) is ten times
+# below it.
+OFFVEC = [5123457, 6712345]  # * m / 1e7
+TF = [((1, 8192), 0), ((1, 8192), 100), ((1, 128), 0), ((1, 128), 1000),
+      ((1, 1), 1000), ((1, 1), 100000), ((1, 1), 500000),
+      ((10, 1), 0), ((10, 1), 100000), ((10, 1), 500000), ((1000, 1), 0), ((1000, 1), 100000), ((1000, 1), 500000),
+      ((10000, 1), 0), ((10000, 1), 100000), ((10000, 1), 500000)]
+
+
+def _long_pair(D):
+    """A long segment [0, L] u and a short collinear one overlapping it in a stretch of k << L steps (k / L between
+    1e-5 and 3e-2, at least 1000 x the 1e-8 of segments_2d), touching it end-to-end (k = 0), lying inside it, or
+    collinear and disjoint; placed near the origin so that it also interacts with the small segments."""
+    o = D.vec(2, 2)
+    u = D.choice([[1, 0], [0, 1], [1, 1], [1, -1], [-1, 0], [0, -1], [-1, -1], [-1, 1]])
+    L = D.choice([1000, 10000, 100000])
+    k, e = D.int(0, 30), D.int(0, 30)
+    where = D.below(4)
+    if where == 0:
+        t = [0, L, L - k, L + e + (1 if k + e == 0 else 0)]
+    elif where == 1:
+        t = [0, L, -e - (1 if k + e == 0 else 0), k]
+    elif where == 2:
+        c0 = D.int(1, 9) * (L // 10)
+        t = [0, L, c0, c0 + max(k, 1)]
+    else:
+        t = [0, L, L + 1 + k, L + 2 + k + e]
+    if D.bool():
+        t[2], t[3] = t[3], t[2]
+    a, b, c, d = (lt.add(o, u, j) for j in t)
+    segs = [(a, b), (c, d)]
+    if D.bool():
+        segs.reverse()
+    return segs
+
+
+def build_tf(nseg, ntags, n736, dup, mode):
+    """mode 0/1: plain; 2: exact similarity transform; 3: a long segment with a short collinear partner is added.
+    One byte string is drawn and split (two separate byte strings make Hypothesis zero one of them in half of the
+    cases): the low 96 bits drive the transform / long pair, the rest the segment set as before."""
+    n, n2 = n736 >> 96, n736 & ((1 << 96) - 1)
+    D2 = Digits(n2)
+    if mode == 3:
+        s = build(max(1, nseg - 2), ntags, n, dup, extra=_long_pair(D2))
+        s["long"] = True
+        return s
+    s = build(nseg, ntags, n, dup)
+    if mode == 2:
+        (num, den), m = D2.choice(TF)
+        off = [c * m // 10000000 for c in OFFVEC]
+        new = []
+        for q in s["pts"]:
+            row = []
+            for x, o in zip(q, off):
+                v = Fraction(x * num, den) + o
+                row.append(int(v) if v.denominator == 1 else float(v))
+            new.append(row)
+        s["pts"] = new
+        s["tf"] = [num, den, m]
+    return s
+
+
 def strategy(tier):
     hi = 7 if tier == "quick" else 9
-    return st.builds(build, st.sampled_from([1] + 2 * list(range(2, hi + 1))), st.sampled_from([0, 1, 2]), big_int(640),
-                     st.sampled_from([False, False, True]))
+    return st.builds(build_tf, st.sampled_from([1] + 2 * list(range(2, hi + 1))), st.sampled_from([0, 1, 2]), big_int(736),
+                     st.sampled_from([False, False, True]), st.sampled_from([0, 1, 2, 2, 3]))
 
 
 def warmup():
@@ -139,7 +221,16 @@ def check(s):
     P = [eg.pt(p) for p in pts]
     segs = [(P[e[0]], P[e[1]]) for e in edges]
     ns = len(segs)
-    scale = max(1.0, max(abs(x) for p in pts for x in p))
+    mx = max(abs(x) for p in pts for x in p)
+    tf = s.get("tf")
+    sf = 1.0 if tf is None else tf[0] / tf[1]
+    if tf is None and not s.get("long"):
+        match_tol = 1e-9 * max(1.0, mx) + 1e-9      # lattice class, as before
+    else:
+        # output points are rounded intersection points: a few ulp of the largest coordinate, plus 1e-9 of the lattice step
+        match_tol = 64 * 2.220446049250313e-16 * mx + 1e-9 * sf
+    # the absolute point-merging tolerance of the function is given in the unit of the configuration when it is scaled down
+    kw = {"tol": 1e-8 * sf} if sf < 1 else {}
 
     # ---- exact candidate points: input points and pairwise intersections
     cand = set(P)
@@ -148,6 +239,15 @@ def check(s):
     labels.append("input-duplicated-points" if dup_class else "input-unique-points")
     if len({tuple(q) for q in pts}) < len(pts):
         labels.append("has-coincident-input-points")
+    if tf is not None:
+        labels.append("transformed")
+        labels.append("scaled-up" if tf[0] > tf[1] else "scaled-down" if tf[1] > tf[0] else "unit-scale")
+        if tf[2]:
+            labels.append("far-offset")
+    elif s.get("long"):
+        labels.append("long-segment")
+    else:
+        labels.append("lattice")
     through = {}
     any_isect = False
     for i in range(ns):
@@ -160,6 +260,9 @@ def check(s):
                 cand.add(q)
             if r[0] == "segment":
                 labels.append("has-overlap")
+                ov = eg.norm2(eg.sub(r[2], r[1]))
+                if ov * 10 ** 4 <= max(eg.norm2(eg.sub(segs[i][1], segs[i][0])), eg.norm2(eg.sub(segs[j][1], segs[j][0]))):
+                    labels.append("long-segment-short-overlap")  # overlap <= 1 % of the longer segment
             else:
                 q = r[1]
                 through.setdefault(q, set()).update((i, j))
@@ -180,7 +283,7 @@ def check(s):
     # ---- run
     p_in = np.array(pts, dtype=float).T.copy()
     e_in = np.array(edges, dtype=int).T.copy().reshape((2 + nt, ns))
-    out = pp.intersections.split_intersecting_segments_2d(p_in.copy(), e_in.copy(), return_argsort=True)
+    out = pp.intersections.split_intersecting_segments_2d(p_in.copy(), e_in.copy(), return_argsort=True, **kw)
     require(len(out) == 4, "return-arity", f"{len(out)}")
     p_out, e_out, _tag_info, argsort = out
     p_out, e_out, argsort = np.asarray(p_out, dtype=float), np.asarray(e_out), np.asarray(argsort)
@@ -190,14 +293,14 @@ def check(s):
     require(argsort.shape == (ne,), "argsort-shape", f"{argsort.shape} for {ne} edges")
     require(np.all((argsort >= 0) & (argsort < ns)), "argsort-range", f"{argsort.tolist()}")
     require(np.all((e_out[:2] >= 0) & (e_out[:2] < p_out.shape[1])), "edge-index-range", f"{e_out[:2].tolist()}")
-    out3 = pp.intersections.split_intersecting_segments_2d(p_in.copy(), e_in.copy())
+    out3 = pp.intersections.split_intersecting_segments_2d(p_in.copy(), e_in.copy(), **kw)
     require(len(out3) == 3 and np.array_equal(np.asarray(out3[1]), e_out) and np.array_equal(out3[0], p_out),
             "argsort-flag-changes-result", "results with and without return_argsort differ")
 
     # ---- identify output points with exact points
     clist = list(cand)
     cf = np.array([[float(x) for x in q] for q in clist])
-    tol = 1e-9 * scale + 1e-9
+    tol = match_tol
     used = sorted(set(int(i) for i in e_out[:2].ravel()))
     X = {}
     for i in used:
